@@ -487,3 +487,92 @@ Proof.
     destruct (route_values_decoded_once raw k vs v Hvs Hv) as [r [Hr E]].
     exists raw, r. split; [exact Hraw|split; assumption].
 Qed.
+
+(** ---- the reading API and ParamsMap::replace ---- *)
+Lemma bytes_eqb_refl a : bytes_eqb a a = true.
+Proof. apply bytes_eqb_eq. reflexivity. Qed.
+
+Lemma last_opt_snoc vs v : last_opt (vs ++ [v]) = Some v.
+Proof. unfold last_opt. rewrite rev_app_distr. reflexivity. Qed.
+
+Lemma get_str_insert_decoded m k v : get_str (insert_decoded m k v) k = Some v.
+Proof.
+  induction m as [|[k' vs] m IH]; cbn [insert_decoded get_str].
+  - rewrite bytes_eqb_refl. reflexivity.
+  - destruct (bytes_eqb k' k) eqn:E; cbn [get_str]; rewrite E.
+    + rewrite last_opt_snoc. reflexivity.
+    + exact IH.
+Qed.
+
+Lemma get_replace_decoded m k v :
+  get_str (replace_decoded m k v) k = Some v /\ get_all (replace_decoded m k v) k = Some [v].
+Proof.
+  induction m as [|[k' vs] m IH]; cbn [replace_decoded get_str get_all].
+  - rewrite bytes_eqb_refl. split; reflexivity.
+  - destruct (bytes_eqb k' k) eqn:E; cbn [get_str get_all]; rewrite E.
+    + split; reflexivity.
+    + exact IH.
+Qed.
+
+(** what [get] / [get_str] hand to the application after [insert(k, raw)] is the raw text
+    decoded exactly once (the most recently added value) *)
+Theorem insert_read_decoded_once m k v :
+  str_ok v -> get_str (insert m k (escape v)) k = Some v.
+Proof.
+  intros [Hb Hu]. unfold insert. rewrite (unescape_escape v Hb Hu).
+  apply get_str_insert_decoded.
+Qed.
+
+(** [replace(k, raw)] decodes once and leaves exactly that value under the key *)
+Theorem replace_read_decoded_once m k v :
+  str_ok v ->
+  get_str (replace m k (escape v)) k = Some v /\ get_all (replace m k (escape v)) k = Some [v].
+Proof.
+  intros [Hb Hu]. unfold replace. rewrite (unescape_escape v Hb Hu).
+  apply get_replace_decoded.
+Qed.
+
+Example replace_example :
+  str_ok [37; 52; 49] /\
+  get_all (replace (insert [] [113] [120]) [113] (escape [37; 52; 49])) [113] = Some [[37; 52; 49]].
+Proof. vm_compute. repeat split; reflexivity. Qed.
+
+(** ---- the nested router in general (Url.level_maps) ---- *)
+Lemma in_to_params_levels own raw kr :
+  In raw (to_params_levels own) -> In kr raw -> exists lvl, In lvl own /\ In kr lvl.
+Proof.
+  induction own as [|o rest IH]; cbn [to_params_levels]; intros Hraw Hkr.
+  - destruct Hraw.
+  - destruct Hraw as [E | Hraw].
+    + subst raw. apply in_app_or in Hkr as [Ho | Hc].
+      * exists o. split; [left; reflexivity | exact Ho].
+      * apply in_concat in Hc as [lvl [Hl Hk]]. exists lvl. split; [right; exact Hl | exact Hk].
+    + destruct (IH Hraw Hkr) as [lvl [Hl Hk]]. exists lvl. split; [right; exact Hl | exact Hk].
+Qed.
+
+Lemma in_firstn {A} (x : A) n : forall l, In x (firstn n l) -> In x l.
+Proof.
+  induction n as [|n IH]; intros [|y l] H; cbn [firstn] in H; try destruct H.
+  - left; assumption.
+  - right; apply IH; assumption.
+Qed.
+
+(** whatever a component at any depth of any chain of nested routes reads from its params
+    map is the once-decoded text of a raw segment some route of the chain bound to that name *)
+Theorem level_values_decoded_once own m k vs v :
+  In m (level_maps own) -> In (k, vs) m -> In v vs ->
+  exists lvl r, In lvl own /\ In (k, r) lvl /\ v = unescape r.
+Proof.
+  unfold level_maps. intros Hm Hk Hv.
+  apply in_map_iff in Hm as [i [Em _]]. subst m.
+  destruct (nested_values_decoded_once _ k vs v Hk Hv) as [raw [r [Hraw [Hr E]]]].
+  apply in_firstn in Hraw.
+  destruct (in_to_params_levels own raw (k, r) Hraw Hr) as [lvl [Hl Hin]].
+  exists lvl, r. split; [exact Hl | split; [exact Hin | exact E]].
+Qed.
+
+Example level_maps_example :
+  level_maps [[([97], [37; 52; 49])]; [([98], [37; 50; 53; 52; 49])]]
+  = [ [([97], [[65]]); ([98], [[37; 52; 49]])];
+      [([97], [[65]]); ([98], [[37; 52; 49]; [37; 52; 49]])] ].
+Proof. vm_compute. reflexivity. Qed.
